@@ -158,6 +158,19 @@ claim('C13',
       'DESIGN.md section 4 C13')
 
 
+claim('C05',
+      'RowAccess.tla states the iteration rule and the sort / merge-ranges / un-sort route of get_batch; TLC '
+      'proves every row is yielded once in order and that the batch route equals direct selection for every '
+      'duplicate-free row list; every matrix of the model is replayed through the real iterator in three '
+      'encodings, X/layer, four numeric types, three HDF5 layouts, every chunk size and row list; larger random '
+      'matrices cross the minimum budgets of the CSC->CSR conversion; the (r0,r1) sequences of real iterators '
+      'are validated by RowAccess_Trace; mapping results are bitwise equal across encodings (Relations_Trace).',
+      'Trusted: TLC, anndata/h5py writers of the inputs. Duplicate row lists are outside the property. The '
+      'former defect F1 (CSC without stored value) is repaired.',
+      'TLA+ model + TLC-emitted scenarios replayed + trace validation + encoding-paired runs',
+      'DESIGN.md section 4 C05')
+
+
 def build():
     props = [json.loads(l) for l in open(ROOT / 'properties.jsonl')]
     checks = []
